@@ -37,10 +37,8 @@ theorem verifyAppImpl_notHigh {s : Sess} {m : InMsg} {r : Rej} (h : (verifyAppIm
   · rename_i r' hv
     simp only [] at h
     cases h
-    unfold validate at hv
-    split at hv
-    · cases hv; rfl
-    · cases hv
+    obtain ⟨_, _, rfl⟩ := validate_plain hv
+    rfl
   · simp only [] at h
     unfold callbackVerdict at h
     repeat' split at h
